@@ -26,7 +26,7 @@ EXPLANATION = (
     "cached canvas (otherwise the wrapper's attributes are baked into the child and survive a later set_attr_map); (6) CUTATTR: the space replacing a cut wide character keeps the cut character's attribute."
     ' Added after seed round 3: (9) FOCUS-FWD over all widget modules - a focus map further down is applied exactly when the widget is in focus because every container / decoration passes the flag on; (10) ACCUM on the rle walkers that cut attribute runs.'
     ' Round 4: (11) LOOPFRESH and (12) PAIRLEN on apply_text_layout / apply_target_encoding (attribute and charset run lengths are the length of the piece just appended); (13) no display code indexes a palette entry with a constant position.'
-    ' Round-4 triage: (14) NONE-SENTINEL on attribute maps; (15) _tagmarkup_recurse reads the last run only when both run lists are non-empty; (16) the 88-colour fallback helper of register_palette_entry examines every comma-separated setting of a description. Round 5: (17) the rendition model of draw_screen (shared with C04.13).'
+    ' Round-4 triage: (14) NONE-SENTINEL on attribute maps; (15) _tagmarkup_recurse reads the last run only when both run lists are non-empty; (16) the 88-colour fallback helper of register_palette_entry examines every comma-separated setting of a description. Round 5: (17) the rendition model of draw_screen (shared with C04.13); (18) LayoutSegment.offs (None = alignment padding, 0 = first character) is never tested for truthiness by its consumers; (19) every emitting branch of the segment loop of apply_text_layout records attribute and charset runs.'
 )
 NOT_DECIDED = "Run-length alignment of attributes through layout and encoding, composition order of nested maps as a value statement, the SGR text produced for every AttrSpec and its decoding."
 ASSUMPTIONS = []
@@ -343,6 +343,44 @@ def rule_desc_tokens(ctx: Ctx) -> RuleResult:
     return rr
 
 
+def rule_charset_pad(ctx: Ctx) -> RuleResult:
+    """apply_text_layout() builds three parallel things per output line: the bytes, the attribute runs and the
+    charset runs.  Every branch of the segment loop that appends bytes has to account for them in *both* run lists,
+    otherwise the runs that follow apply to cells one position to the left (PAIRLEN checks the lengths recorded;
+    this checks that no branch forgets a list altogether)."""
+    p = ctx.p
+    rr = RuleResult("PAIR", "C17.19", "every branch of apply_text_layout's segment loop that emits cells records them in the attribute runs and in the charset runs", floor=3)
+    fi = p.func("urwid.canvas.apply_text_layout")
+    loops = [n for n in fi.own_nodes() if isinstance(n, ast.For) and any(isinstance(c, ast.Call) and isinstance(c.func, ast.Name) and c.func.id == "LayoutSegment" for c in ast.walk(n))]
+    if not loops:
+        raise AnalysisError("apply_text_layout: the loop over the layout segments was not found")
+    lp = loops[-1]
+    chain = [st for st in lp.body if isinstance(st, ast.If)]
+    if not chain:
+        raise AnalysisError("apply_text_layout: the if/elif chain over the segment kinds was not found")
+    branches = []
+    cur = chain[0]
+    while True:
+        branches.append((norm(cur.test, 40), cur.body))
+        if len(cur.orelse) == 1 and isinstance(cur.orelse[0], ast.If):
+            cur = cur.orelse[0]
+        else:
+            if cur.orelse:
+                branches.append(("else", cur.orelse))
+            break
+    for label, body in branches:
+        txt = " ".join(ast.unparse(b) for b in body)
+        emits = "line.append(" in txt
+        attr = "linea" in txt or "attrrange(" in txt
+        chars = "linec" in txt
+        if not emits:
+            continue
+        rr.inst(f"branch {label}", True, {"branch": label, "attribute_runs": attr, "charset_runs": chars})
+        if not (attr and chars):
+            rr.add(finding("PAIR", fi, body[0], f"the branch `{label}` of apply_text_layout's segment loop appends cells to the line but not to the {'charset' if attr else 'attribute'} runs: every later run of that list applies one cell too far left (a DEC line-drawing character after a cut wide character is printed as its alias letter)", construct=f"branch {label}: cells without {'charset' if attr else 'attribute'} run"))
+    return rr
+
+
 def run(ctx: Ctx):
     r6 = c02.rule_cut_attr(ctx)
     r6.clause = "C17.6"
@@ -366,13 +404,18 @@ def run(ctx: Ctx):
     from . import c04 as _c04
 
     r17 = _c04.rule_rendition_model(ctx, "C17.17")
-    return [r17, rule_palette_order(ctx), rule_palette_notify(ctx), rule_palette_cache(ctx), rule_palette_total(ctx), rule_attrmap(ctx), r6, r7, r8, r9, r10, r11, r12, rule_palette_depth_index(ctx), _sentinel(ctx), rule_markup_index_guard(ctx), rule_desc_tokens(ctx)]
+    from ..rules import sentinel as _sentinel_mod
+
+    r18 = _sentinel_mod.run_sentinel_consumers(ctx.p, "C17.18", "urwid.text_layout.LayoutSegment", ["urwid.canvas", "urwid.text_layout", "urwid.widget"], floor=1)
+    return [r17, r18, rule_charset_pad(ctx), rule_palette_order(ctx), rule_palette_notify(ctx), rule_palette_cache(ctx), rule_palette_total(ctx), rule_attrmap(ctx), r6, r7, r8, r9, r10, r11, r12, rule_palette_depth_index(ctx), _sentinel(ctx), rule_markup_index_guard(ctx), rule_desc_tokens(ctx)]
 
 
 _CM = "urwid/display/common.py"
 _RW = "urwid/display/_raw_display_base.py"
 _HT = "urwid/display/html_fragment.py"
 MUTANTS = [
+    Mut("pad-segment-recognised-by-truthy-offset", "urwid/canvas.py", "apply_text_layout", "            elif s.offs is not None:", "            elif s.offs:", "SENTINEL|canvas.apply_text_layout"),
+    Mut("pad-segment-without-charset-run", "urwid/canvas.py", "apply_text_layout", "                    attrrange(s.offs, s.offs, s.sc)\n                    rle_append_modify(linec, (None, s.sc))\n", "                    attrrange(s.offs, s.offs, s.sc)\n", "PAIR|canvas.apply_text_layout"),
     Mut("initial-rendition-only-on-full-repaint", _RW, "urwid.display._raw_display_base.Screen.draw_screen", "        output: list[str] = [escape.HIDE_CURSOR, attr_to_escape(last_attributes)]\n", "        output: list[str] = [escape.HIDE_CURSOR]\n        if not self.screen_buf:\n            output.append(attr_to_escape(last_attributes))\n", "PAIR|display._raw_display_base.Screen.draw_screen|rendition model"),
     Mut("large-h-first-setting-only", _CM, "BaseScreen.register_palette_entry", "            for part in desc.split(\",\"):\n                part = part.strip()  # noqa: PLW2901\n                if part.startswith(\"h\") and part[1:].isdigit() and int(part[1:], 10) > 15:\n                    return True\n            return False\n", "            part = desc.split(\",\", 1)[0].strip()\n            return part.startswith(\"h\") and part[1:].isdigit() and int(part[1:], 10) > 15\n", "SIB|display.common.BaseScreen.register_palette_entry.<locals>.large_h"),
     Mut("attrwrap-focus-attr-none-mapped", "urwid/widget/attr_wrap.py", "AttrWrap.set_focus_attr", "self.set_focus_map(None if focus_attr is None else {None: focus_attr})", "self.set_focus_map({None: focus_attr})", "GUARD|widget.attr_wrap.AttrWrap.set_focus_attr"),
